@@ -62,12 +62,17 @@ func (p *PrevOut) WriteTo(buf io.Writer) (n int64, err error) {
 		return
 	}
 
-	if err = binary.Write(buf, binary.LittleEndian, p.Index); err != nil {
-		return
-	}
-
-	n += int64(binary.Size(p.Index))
+	j, err = writeLE(buf, uint64(p.Index), 4)
+	n += int64(j)
 	return
+}
+
+// writeLE writes the low size bytes of v to w in little-endian order. Unlike binary.Write it
+// reports how many bytes w accepted, so that callers can return an exact count on a short write.
+func writeLE(w io.Writer, v uint64, size int) (int, error) {
+	var b [8]byte
+	binary.LittleEndian.PutUint64(b[:], v)
+	return w.Write(b[:size])
 }
 
 // Clone returns a pointer to a duplicate of the PrevOut.
